@@ -109,7 +109,10 @@ def run(ctx):
         "xp_same_type_spread_always_possible are modelled and on; xp_defer_rules is NOT modelled: the generator never "
         "writes @defer or @stream (they are not defined by the generated schemas)",
         "agreement of the code with xv_exec_valid on all rules is carried by this tie (partial by construction); the "
-        "theorems of Props/C17.v are about the literal models of fragment cycle detection and of parts of field merging",
+        "theorems of Props/C17.v are about the literal models of fragment cycle detection and of field merging "
+        "(C17_xing_equiv: the literal model of selection.rs computes the verdict of the specification's rule 5.3.2 for "
+        "documents that pass the other rules named there; the literal model itself is tied to the code by "
+        "literal_merging_vs_spec on every generated case)",
         "not generated: block strings, descriptions, variables in default values or in directives on variable "
         "definitions, more than 20 arguments on one field (ArgumentLookup::Map), documents with syntax errors, "
         "Float literals within one ulp of the largest double, schemas that do not validate",
